@@ -1201,11 +1201,12 @@ class MultiReader(IndexReader):
         crs = []
         doc_offsets = []
         for i, r in enumerate(self.readers):
-            if r.has_column(fieldname):
-                cr = r.column_reader(fieldname, column=column, reverse=reverse,
-                                     translate=translate)
-                crs.append(cr)
-                doc_offsets.append(self.doc_offsets[i])
+            # SegmentReader.column_reader() supplies a reader of default
+            # values for a segment that has no column file for the field
+            cr = r.column_reader(fieldname, column=column, reverse=reverse,
+                                 translate=translate)
+            crs.append(cr)
+            doc_offsets.append(self.doc_offsets[i])
         return columns.MultiColumnReader(crs, doc_offsets)
 
     # Per doc methods
